@@ -345,33 +345,69 @@ def r6_top_m(ctx):
     ctx.check(good, sel, loop[0] if loop else sel.node, "selector consumes ranking[0], ranking[1], ... in order", "", "the selector no longer walks the ranking from its top group downward")
 
 
+def _vector_loop_roles(lp, vec):
+    it = astx.u(lp.iter)
+    role = {}
+    if it == f"enumerate({vec})" and isinstance(lp.target, ast.Tuple) and len(lp.target.elts) == 2:
+        role[astx.u(lp.target.elts[0])] = "index"
+        role[astx.u(lp.target.elts[1])] = "all"
+    elif it == vec and isinstance(lp.target, ast.Name):
+        role[lp.target.id] = "all"
+    elif it in (f"zip({vec}, {vec}[1:])", f"zip({vec}[:-1], {vec}[1:])") and isinstance(lp.target, ast.Tuple) and len(lp.target.elts) == 2:
+        role[astx.u(lp.target.elts[0])] = "all-but-last"
+        role[astx.u(lp.target.elts[1])] = "all-but-first"
+    else:
+        return None
+    return role
+
+
 def r7_validate_vector(ctx):
     prog = ctx.prog
     f = prog.find_func("validate_score_vector")
     pm = astx.parents(f.node)
-    N = Normalizer(f.node, inline=False)
-    loops = [n for n in astx.walk_own(f.node) if isinstance(n, ast.For)]
-    if len(loops) != 1 or astx.call_name(loops[0].iter) != "enumerate":
-        ctx.undecided(f, f.node, "validate_score_vector loop", "not a single enumerate loop")
-        return
-    lp = loops[0]
-    i, sc = [astx.u(x) for x in lp.target.elts]
     vec = f.params[0]
-    ia = lambda a: a == i  # noqa: E731
-    N = Normalizer(f.node, inline=False, int_atoms=ia)
-    got = {}
-    for r in astx.raises_in(f.node):
-        lits = literals(N.conj(astx.path_condition(f.node, r, pm)))
-        got[frozenset(lits)] = r
-    want_neg = literals(spec_guard(f"{sc} < 0", int_atoms=ia))
-    want_inc = literals(spec_guard(f"{i} > 0 and {sc} > {vec}[{i} - 1]", int_atoms=ia))
-    carried = literals(spec_guard(f"{sc} >= 0", int_atoms=ia))
-    okn = any(set(k) == want_neg for k in got)
-    oki = any(want_inc <= set(k) <= (want_inc | carried) for k in got)
-    ctx.check(okn, f, lp, "negative entry => ValueError", str([sorted(k) for k in got]), f"raise conditions are {[sorted(k) for k in got]}; documented {sorted(want_neg)}")
-    ctx.check(oki, f, lp, "entry greater than its predecessor => ValueError", str([sorted(k) for k in got]), f"raise conditions are {[sorted(k) for k in got]}; documented {sorted(want_inc)}")
-    ctx.check(all(astx.raise_type(r) == "ValueError" for r in got.values()) and not any(isinstance(n, (ast.Break, ast.Continue, ast.Return)) for n in astx.walk_own(lp)),
-              f, lp, "every entry is examined; errors are ValueError", "", "the validation loop can skip entries or raises another type")
+    loops = [n for n in astx.walk_own(f.node) if isinstance(n, ast.For)]
+    if not loops:
+        ctx.violated(f, f.node, "validate_score_vector examines the vector", "no loop over the score vector")
+        return
+    covered = set()
+    oki = False
+    all_raises = []
+    for lp in loops:
+        role = _vector_loop_roles(lp, vec)
+        if role is None:
+            ctx.undecided(f, lp, "validate_score_vector loop", f"loop over `{astx.u(lp.iter)}` is outside the idioms (enumerate(v) / v / zip(v, v[1:]))")
+            return
+        idx = next((k for k, v in role.items() if v == "index"), None)
+        ia = (lambda a, idx=idx: a == idx) if idx else (lambda a: False)
+        N = Normalizer(f.node, inline=False, int_atoms=ia)
+        raises = [(r, literals(N.conj(astx.path_condition(f.node, r, pm)))) for r in astx.raises_in(f.node) if astx.enclosing(r, pm, ast.For) is lp]
+        all_raises += raises
+        for r, lits in raises:
+            for v, ro in role.items():
+                if ro != "index" and literals(spec_guard(f"{v} < 0")) <= lits and len(lits) == 1:
+                    covered.add(ro)
+            for v, ro in role.items():
+                if ro == "all" and idx:
+                    want = literals(spec_guard(f"{idx} > 0 and {v} > {vec}[{idx} - 1]", int_atoms=ia))
+                    carried = literals(spec_guard(f"{v} >= 0", int_atoms=ia))
+                    if want <= lits <= (want | carried):
+                        oki = True
+            if "all-but-last" in role.values():
+                a = next(k for k, v in role.items() if v == "all-but-last")
+                b = next(k for k, v in role.items() if v == "all-but-first")
+                want = literals(spec_guard(f"{b} > {a}"))
+                if want <= lits and all((l.startswith("ge(") and l.endswith(", 0)")) or l in want for l in lits):
+                    oki = True
+        if any(isinstance(n, (ast.Break, ast.Continue, ast.Return)) for n in astx.walk_own(lp)):
+            ctx.violated(f, lp, "validation loop can be left early", "break/continue/return inside the validation loop: later entries are not examined")
+    all_cov = "all" in covered or {"all-but-last", "all-but-first"} <= covered
+    ctx.check(all_cov, f, loops[0], "every entry is tested for negativity (ValueError)", f"entries covered: {sorted(covered)}",
+              f"the negativity test covers {sorted(covered) or 'no'} entries of the vector; an entry outside that range (e.g. a one-entry vector [-1]) is accepted")
+    ctx.check(oki, f, loops[0], "an entry greater than its predecessor is rejected, for every adjacent pair", str([sorted(l) for _, l in all_raises]),
+              f"raise conditions are {[sorted(l) for _, l in all_raises]}; documented: reject iff some entry exceeds the one before it")
+    ctx.check(all(astx.raise_type(r) == "ValueError" for r, _ in all_raises) and len(all_raises) >= 2, f, loops[0], "both rejections raise ValueError", "",
+              "a rejection raises another type or is missing")
 
 
 RULES = [
@@ -399,6 +435,8 @@ FAULTS = [
     ("padding with ones", [(UT, "score_vector = list(score_vector) + [0] * (max_length - len(score_vector))", "score_vector = list(score_vector) + [1] * (max_length - len(score_vector))")], "C04.R4"),
     ("sort ascending", [(UT, "score_to_cand.items(), key=lambda x: x[0], reverse=sort_high_low", "score_to_cand.items(), key=lambda x: x[0], reverse=not sort_high_low")], "C04.R5"),
     ("sort by (score, names)", [(UT, "score_to_cand.items(), key=lambda x: x[0], reverse=sort_high_low", "score_to_cand.items(), key=lambda x: (x[0], x[1]), reverse=sort_high_low")], "C04.R5"),
+    ("pairs loop never tests the first entry", [(UT, "    for i, score in enumerate(score_vector):\n        # if score is negative\n        if score < 0:\n            raise ValueError(\"Score vector must be non-negative.\")\n\n        if i > 0:\n            # if the current score is bigger than prev\n            if score > score_vector[i - 1]:\n                raise ValueError(\"Score vector must be non-increasing.\")",
+                                                 "    for prev, score in zip(score_vector, score_vector[1:]):\n        # if score is negative\n        if score < 0:\n            raise ValueError(\"Score vector must be non-negative.\")\n\n        if score > prev:\n            raise ValueError(\"Score vector must be non-increasing.\")")], "C04.R7"),
     ("negative check loosened", [(UT, "        if score < 0:\n            raise ValueError(\"Score vector must be non-negative.\")", "        if score < -1:\n            raise ValueError(\"Score vector must be non-negative.\")")], "C04.R7"),
     ("increase check >=", [(UT, "            if score > score_vector[i - 1]:", "            if score >= score_vector[i - 1]:")], "C04.R7"),
     ("sum of raw entries then Fraction", [(UT, "allocation = sum(Fraction(x) for x in local_score_vector) / position_size", "allocation = Fraction(sum(local_score_vector)) / position_size")], "C04.R2"),
@@ -408,6 +446,8 @@ FAULTS = [
     ("borda elects from the bottom", [("src/votekit/elections/election_types/ranking/borda.py", "super().__init__(profile, score_function=score_function, sort_high_low=True)", "super().__init__(profile, score_function=score_function, sort_high_low=False)")], "C04.R5"),
 ]
 BENIGN = [
+    ("pairs loop testing both ends", [(UT, "    for i, score in enumerate(score_vector):\n        # if score is negative\n        if score < 0:\n            raise ValueError(\"Score vector must be non-negative.\")\n\n        if i > 0:\n            # if the current score is bigger than prev\n            if score > score_vector[i - 1]:\n                raise ValueError(\"Score vector must be non-increasing.\")",
+                                       "    for score in score_vector:\n        if score < 0:\n            raise ValueError(\"Score vector must be non-negative.\")\n    for prev, score in zip(score_vector, score_vector[1:]):\n        if score > prev:\n            raise ValueError(\"Score vector must be non-increasing.\")")]),
     ("allocation inlined", [(UT, "                allocation = sum(Fraction(x) for x in local_score_vector) / position_size\n                for c in s:\n                    scores[c] += Fraction(allocation) * ballot.weight",
                              "                for c in s:\n                    scores[c] += ballot.weight * sum(Fraction(x) for x in local_score_vector) / len(s)")]),
     ("padding condition flipped", [(UT, "    if len(score_vector) < max_length:", "    if max_length > len(score_vector):")]),
